@@ -135,7 +135,7 @@ func routeBytes(data []byte, linkSel uint8, auth bool, stats func(string)) (msg 
 
 func c08Mutate(rt *rapid.T, raw []byte) ([]byte, string) {
 	b := append([]byte{}, raw...)
-	kind := rapid.SampledFrom([]string{"none", "bitflips", "hdrlen", "payloadlen", "meta", "addrtype", "nexthdr", "truncate", "extend", "pathtype", "field", "nested_scmp", "stun"}).Draw(rt, "mutation")
+	kind := rapid.SampledFrom([]string{"none", "bitflips", "hdrlen", "payloadlen", "meta", "addrtype", "nexthdr", "truncate", "extend", "pathtype", "field", "nested_scmp", "stun", "svc_dst"}).Draw(rt, "mutation")
 	interesting := []byte{0, 1, 2, 3, 4, 7, 8, 9, 15, 16, 17, 31, 32, 63, 64, 65, 127, 128, 200, 201, 202, 203, 254, 255}
 	hdr := min(int(b[5])*4, len(b))
 	switch kind {
@@ -168,6 +168,17 @@ func c08Mutate(rt *rapid.T, raw []byte) ([]byte, string) {
 		}
 	case "addrtype":
 		b[9] = rapid.Byte().Draw(rt, "dtst")
+	case "svc_dst":
+		// destination becomes a service address: registered (CS), registered and removed again (DS),
+		// their multicast forms, unknown ones; the destination ISD-AS is the local one half of the time
+		if len(b) >= 36 && b[9]>>4&3 == 0 {
+			b[9] = b[9]&0x0f | 0x40
+			svc := rapid.SampledFrom([]uint16{1, 2, 0x8001, 0x8002, 3, 0xffff}).Draw(rt, "svc")
+			b[28], b[29], b[30], b[31] = byte(svc>>8), byte(svc), 0, 0
+			if rapid.Bool().Draw(rt, "svcLocalAS") {
+				binary.BigEndian.PutUint64(b[12:], uint64(labLocal))
+			}
+		}
 	case "nexthdr":
 		b[4] = rapid.SampledFrom(interesting).Draw(rt, "nh")
 	case "truncate":
@@ -270,7 +281,7 @@ func TestC08(t *testing.T) {
 		"Non-trivial: input that passes header decoding (reaches a forward, deliver or slow-path decision).")
 	defer rec.Flush(t)
 	rec.Assume("processor objects are created per input (no state leaks between inputs)", "inputs up to the 9000-byte router buffer")
-	rec.Require("forwarded", "delivered", "scmp_emitted", "discarded", "slow_path_no_answer", "mut_meta", "mut_hdrlen", "mut_nested_scmp", "mut_stun", "link_internal", "link_sibling", "kind_epic", "kind_onehop", "auth_on", "valid_mac_odd_interface", "path_30_plus_hops", "mut_stun_unpadded")
+	rec.Require("forwarded", "delivered", "scmp_emitted", "discarded", "slow_path_no_answer", "mut_meta", "mut_hdrlen", "mut_nested_scmp", "mut_stun", "link_internal", "link_sibling", "kind_epic", "kind_onehop", "auth_on", "valid_mac_odd_interface", "path_30_plus_hops", "mut_stun_unpadded", "mut_svc_dst")
 	rapid.Check(t, func(rt *rapid.T) {
 		auth := rapid.Bool().Draw(rt, "auth")
 		l := c08Lab(auth)
